@@ -16,11 +16,12 @@ timeout 3000 make -k -j16 >build.log 2>&1 || rc=1
 B="$V/build/$D"
 mkdir -p "$B"
 if [ -f Model.vo ]; then
-  if [ ! -f "$B/model.ml" ] || [ Model.vo -nt "$B/model.ml" ] || [ Extract.v -nt "$B/model.ml" ] || [ "$V/ocaml/driver.ml" -nt "$B/modelrun" ]; then
+  if [ ! -f "$B/model.ml" ] || [ Model.vo -nt "$B/model.ml" ] || [ Extract.v -nt "$B/model.ml" ] || [ -n "$(find . ../gen ../lib -name '*.vo' -newer "$B/model.ml" 2>/dev/null | head -1)" ] || [ "$V/ocaml/driver.ml" -nt "$B/modelrun" ]; then
     ( cd "$B" && cp "$V/coq/$D/Extract.v" . && \
       QARGS=$(grep -- '^-Q' "$V/coq/$D/_CoqProject" | while read q p l; do echo "-Q $(cd "$V/coq/$D" && cd "$p" && pwd) $l"; done | tr '\n' ' ') && \
       timeout 600 coqc $QARGS Extract.v >extract.log 2>&1 && \
       cp "$V/ocaml/driver.ml" . && rm -f model.mli && \
+      { if grep -q '^let run2 ' model.ml; then echo 'let run = run2' >> model.ml; fi; } && \
       timeout 600 ocamlfind ocamlopt -O3 -w -a model.ml driver.ml -o modelrun >>extract.log 2>&1 || \
       timeout 600 ocamlfind ocamlopt -w -a model.ml driver.ml -o modelrun >>extract.log 2>&1 ) || { echo "extraction/ocaml build failed for $D" >&2; rc=3; }
   fi
